@@ -343,6 +343,9 @@ fn gen_scale(rng: &mut Rng, out: &mut Out, blank_color: bool) -> (Vec<Conditiona
     let mut ct = vec![];
     for _ in 0..m {
         let (c, t) = gen_color(rng, blank_color);
+        if t == "~:~:~:~" {
+            out.count("codec.cf.scale.blank-color");
+        }
         cs.push(c);
         ct.push(t);
     }
@@ -589,6 +592,20 @@ fn cf_obs(book: &Spreadsheet) -> String {
     v.join("!")
 }
 
+/// what must come back: the blocks that have a rule (a block without rules holds no conditional format and is not
+/// written: the model's `writtenBlocks`)
+fn cf_obs_written(book: &Spreadsheet) -> String {
+    let mut v = vec![];
+    for i in 0..book.get_sheet_count() {
+        for b in book.get_sheet(&i).unwrap().get_conditional_formatting_collection() {
+            if !b.get_conditional_collection().is_empty() {
+                v.push(block_obs(b));
+            }
+        }
+    }
+    v.join("!")
+}
+
 // ---------------------------------------------------------------- cases
 
 struct Built {
@@ -624,15 +641,17 @@ fn gen_case(seed: u64, out: &mut Out) -> Built {
         out.count(&format!("codec.cf.blocks.{}", nb));
         for _ in 0..nb {
             let mut f = ConditionalFormatting::default();
-            let nr = rng.range(1, 3);
+            // a block without ranges (sqref="") and a block without rules (not written) now and then
+            let nr = if rng.chance(1, 10) { 0 } else { rng.range(1, 3) };
+            out.count(&format!("codec.cf.ranges-per-block.{}", nr));
             let ranges: Vec<String> = (0..nr).map(|_| rand_range(&mut rng, false)).collect();
             set_sqref(f.get_sequence_of_references_mut(), &ranges);
-            let nrules = *rng.pick(&[1u64, 1, 1, 2, 3, 4]);
+            let nrules = *rng.pick(&[0u64, 1, 1, 1, 1, 1, 2, 2, 3, 4]);
             out.count(&format!("codec.cf.rules-per-block.{}", nrules));
             let mut rs = vec![];
             for _ in 0..nrules {
                 k += 1;
-                let (r, spec) = gen_rule(&mut rng, k, out, &pool, false);
+                let (r, spec) = gen_rule(&mut rng, k, out, &pool, true);
                 f.add_conditional_collection(r);
                 rs.push(spec);
             }
@@ -917,7 +936,7 @@ pub fn run_case(out: &mut Out, header: &str) {
     out.count(&format!("case.{}", a[2]));
     out.count("programs");
     let before_dv = built.book.get_sheet(&0).map(dvs_obs).unwrap_or_default();
-    let before_cf = cf_obs(&built.book);
+    let before_cf = cf_obs_written(&built.book);
     let bytes = match guard(|| wb::save_bytes(&built.book, false)) {
         Ok(Ok(b)) => b,
         _ => {
@@ -932,7 +951,7 @@ pub fn run_case(out: &mut Out, header: &str) {
             return;
         }
     };
-    // oracle: getter view before == after
+    // oracle: getter view before == after (conditional formats: of the blocks that have a rule)
     let after_dv = back.get_sheet(&0).map(dvs_obs).unwrap_or_default();
     let after_cf = cf_obs(&back);
     for (kind, b, af) in [("dv", &before_dv, &after_dv), ("cf", &before_cf, &after_cf)] {
